@@ -12,7 +12,7 @@ Local Open Scope N_scope.
 (*          [unm_S : unm pf (S f) o R t cur ts = ustep pf o R (unm pf f o R) t cur ts] is   *)
 (*          proved by [reflexivity]: the definitions below are a transcription of the body  *)
 (*          of [unm] and the kernel checks that they are convertible with it.  If the model *)
-(*          changes, [unm_S] fails (after ~15 s of failed unification) and the loop that    *)
+(*          changes, [unm_S] fails (after ~15 s of failed unification) and the part that    *)
 (*          changed has to be transcribed again; everything after Part 0 only uses [unm_S], *)
 (*          [unm_O] and treats [unm] as opaque.                                             *)
 (* ====================================================================================== *)
@@ -291,6 +291,8 @@ Definition ustep (t : ty) (cur : gval) (ts : list token) : res (gval * list toke
           end
   | tk0 :: rest =>
       bind (conv_tok t tk0) (fun tk =>
+      if (kind tk =? KTypeName) && negb (match ptr_base t with TAny => true | _ => false end) then rec t cur rest
+      else
       match underlying t with
       | TTime => time_case tk rest
       | ut =>
@@ -405,6 +407,7 @@ Lemma ustep_le t cur ts :
 Proof.
   unfold ustep. destruct ts as [|tk0 rest]; [apply le_res_refl|].
   apply bind_le; [apply le_res_refl|]. intros tk.
+  destruct ((kind tk =? KTypeName) && negb match ptr_base t with TAny => true | _ => false end); [apply Hrec|].
   destruct (underlying t); try apply le_res_refl;
     (destruct (kind tk =? KNil); [apply le_res_refl|]);
     (destruct (is_end_kind (kind tk)); [apply le_res_refl|]);
@@ -608,6 +611,8 @@ Lemma ustep_sfx t cur ts : sfx ts (ustep pf o R rec t cur ts).
 Proof.
   unfold ustep. destruct ts as [|tk0 rest]; [destruct (underlying t); sfx_auto|].
   destruct (conv_tok pf t tk0) as [tk|e|]; cbn [bind]; [|apply sfx_err|apply sfx_oof].
+  destruct ((kind tk =? KTypeName) && negb match ptr_base t with TAny => true | _ => false end);
+    [apply sfx_cons_w, sfx_w, Hrec|].
   destruct (underlying t);
     try (destruct (kind tk =? KNil); [apply sfx_ok_cons|];
          destruct (is_end_kind (kind tk)); [apply sfx_err|];
@@ -871,6 +876,8 @@ Proof.
     unfold convert_literal. destruct (underlying t); try discriminate;
       match goal with |- match ?x with _ => _ end <> _ => destruct x; discriminate end. }
   apply bind_noof; [exact Hc|]. intros tk _.
+  destruct ((kind tk =? KTypeName) && negb match ptr_base t with TAny => true | _ => false end);
+    [apply Hok, mu_lt_tokens; lia|].
   destruct (underlying t) eqn:Hut;
     try (destruct (kind tk =? KNil); [discriminate|];
          destruct (is_end_kind (kind tk)); [discriminate|];
@@ -967,7 +974,9 @@ Proof.
   { apply end_kind_cases in Hend. destruct Hend as [H|[H|[H|H]]]; rewrite H; reflexivity. }
   assert (Hn : (kind tk =? KNil) = false).
   { apply end_kind_cases in Hend. destruct Hend as [H|[H|[H|H]]]; rewrite H; reflexivity. }
-  rewrite Hl. cbn [bind]. rewrite Hn, Hend.
+  assert (Htn : (kind tk =? KTypeName) = false).
+  { apply end_kind_cases in Hend. destruct Hend as [H|[H|[H|H]]]; rewrite H; reflexivity. }
+  rewrite Hl. cbn [bind]. rewrite Htn, Hn, Hend. cbn [andb].
   destruct (underlying t); try congruence; reflexivity.
 Qed.
 
@@ -1044,7 +1053,7 @@ Proof.
   intros Ht Htk. rewrite unm_S. generalize (unm pf f o R). intros rec.
   destruct (scalar_tok_kind tk Htk) as [Hk Hv].
   destruct (scalar_kind_route _ Hk) as (H1 & H2 & H3 & H4 & H5 & H6 & H7 & H8 & H9 & H10 & H11).
-  unfold ustep, conv_tok. rewrite H1. cbn [bind]. rewrite H2, H3.
+  unfold ustep, conv_tok. rewrite H1. cbn [bind]. rewrite H10, H2, H3. cbn [andb].
   unfold ptr_or_dispatch, dispatch, scalar_case. rewrite H4, H5, H6, H7, H8, H9, H10, H11, H1. cbn [orb].
   destruct (underlying t); try discriminate; destruct (val tk); try congruence; reflexivity.
 Qed.
@@ -1245,20 +1254,6 @@ Lemma wf_ty_struct fs :
   wf_ty (TStruct fs) = forallb (fun f => wf_bytesb (fname f) && wf_ty (snd f)) fs && names_nodup fs.
 Proof. reflexivity. Qed.
 
-(* ---- registered named types: the extra hypothesis of the round trip ---- *)
-Definition is_ptr_or_time (t : ty) : bool := match t with TPtr _ | TTime => true | _ => false end.
-
-(* no registered defined type has a pointer or time.Time as its underlying type *)
-Fixpoint reg_ok (t : ty) : bool :=
-  match t with
-  | TArray _ e | TSlice e | TPtr e => reg_ok e
-  | TMap k v => reg_ok k && reg_ok v
-  | TStruct fs => forallb (fun f => reg_ok (snd f)) fs
-  | TFunc outs => forallb reg_ok outs
-  | TNamed _ r _ u => (negb r || negb (is_ptr_or_time (underlying u))) && reg_ok u
-  | _ => true
-  end.
-
 Lemma zero_underlying t : zero t = zero (underlying t).
 Proof. induction t; cbn [zero underlying]; try reflexivity. assumption. Qed.
 
@@ -1269,20 +1264,8 @@ Proof.
 Qed.
 Lemma simple_underlying t : simple_ty t = true -> simple_ty (underlying t) = true.
 Proof. induction t; cbn [underlying]; try (intros H; exact H). cbn [simple_ty]. exact IHt. Qed.
-Lemma reg_ok_underlying t : reg_ok t = true -> reg_ok (underlying t) = true.
-Proof.
-  induction t; cbn [underlying]; try (intros H; exact H).
-  cbn [reg_ok]. intros H. apply andb_true_iff in H. apply IHt, H.
-Qed.
-
 Lemma reg_prefix_cases t : reg_prefix t = [] \/ exists n, reg_prefix t = [T KTypeName (VStr n)].
 Proof. destruct t; try (left; reflexivity). destruct reg; [right; eexists; reflexivity|left; reflexivity]. Qed.
-
-Lemma reg_prefix_ptr_time t : reg_ok t = true -> is_ptr_or_time (underlying t) = true -> reg_prefix t = [].
-Proof.
-  destruct t; try reflexivity. destruct reg; [|reflexivity]. cbn [reg_ok underlying negb orb].
-  intros H Hp. rewrite Hp in H. discriminate.
-Qed.
 
 (* ---- heads of marshalled streams ---- *)
 Definition head_ok (tk : token) : Prop := (kind tk =? KLiteral) = false /\ is_end_kind (kind tk) = false.
@@ -1345,6 +1328,32 @@ Proof.
   - cbn [marshal bind] in Hm. injection Hm as <-. head_const.
 Qed.
 
+(* ---- leading TypeName tokens: a concrete target skips them all, at any pointer level ---- *)
+Definition is_tn (tk : token) : bool := kind tk =? KTypeName.
+Fixpoint strip (ts : list token) : list token :=
+  match ts with
+  | tk :: r => if is_tn tk then strip r else ts
+  | [] => []
+  end.
+Fixpoint leadl (ts : list token) : list token :=
+  match ts with
+  | tk :: r => if is_tn tk then tk :: leadl r else []
+  | [] => []
+  end.
+
+Lemma leadl_strip ts : leadl ts ++ strip ts = ts.
+Proof. induction ts as [|tk r IH]; cbn [leadl strip]; [reflexivity|]. destruct (is_tn tk); cbn [app]; [now rewrite IH|reflexivity]. Qed.
+Lemma leadl_tn ts : forallb is_tn (leadl ts) = true.
+Proof. induction ts as [|tk r IH]; cbn [leadl]; [reflexivity|]. destruct (is_tn tk) eqn:E; cbn [forallb]; [now rewrite E, IH|reflexivity]. Qed.
+Lemma strip_prefix t body : strip (reg_prefix t ++ body) = strip body.
+Proof. destruct (reg_prefix_cases t) as [E|[n E]]; rewrite E; reflexivity. Qed.
+Lemma leadl_prefix t body : length (leadl (reg_prefix t ++ body)) = (length (reg_prefix t) + length (leadl body))%nat.
+Proof. destruct (reg_prefix_cases t) as [E|[n E]]; rewrite E; reflexivity. Qed.
+Lemma reg_prefix_len t : (length (reg_prefix t) <= 1)%nat.
+Proof. destruct (reg_prefix_cases t) as [E|[n E]]; rewrite E; cbn; lia. Qed.
+Lemma strip_ntn tk r : is_tn tk = false -> strip (tk :: r) = tk :: r /\ leadl (tk :: r) = [].
+Proof. intros H. cbn [strip leadl]. rewrite H. split; reflexivity. Qed.
+
 (* ---- one step of unm on the token shapes marshal produces ---- *)
 Section Steps.
 Variable pf : bytes -> N -> option N.
@@ -1355,32 +1364,62 @@ Ltac step_rec f :=
   rewrite (unm_S pf f o R); generalize (unm pf f o R); intros rec;
   unfold ustep, conv_tok, ptr_or_dispatch, dispatch; cbn [kind val].
 
-Lemma unm_typename f t cur n rest :
-  is_ptr_or_time (underlying t) = false -> simple_ty (underlying t) = true ->
-  unm pf (S f) o R t cur (T KTypeName (VStr n) :: rest) = unm pf f o R t cur rest.
+Lemma simple_ptr_base t : simple_ty t = true -> match ptr_base t with TAny => true | _ => false end = false.
+Proof. induction t; cbn [ptr_base simple_ty]; try reflexivity; try discriminate; assumption. Qed.
+
+(* a TypeName token in front of a concrete target is skipped, whatever name it carries *)
+Lemma unm_typename f t cur tk rest :
+  simple_ty t = true -> (kind tk =? KTypeName) = true ->
+  unm pf (S f) o R t cur (tk :: rest) = unm pf f o R t cur rest.
 Proof.
-  intros Hp Hs. step_rec f. destruct (underlying t); try discriminate; reflexivity.
+  intros Hs Hk. destruct tk as [k v]. cbn [kind] in Hk. apply N.eqb_eq in Hk. subst k.
+  step_rec f. rewrite (simple_ptr_base t Hs). reflexivity.
+Qed.
+
+Lemma unm_skip_tns t cur s x : simple_ty t = true ->
+  forall pre, forallb is_tn pre = true ->
+  forall F, (length pre <= F)%nat ->
+  unm pf (F - length pre) o R t cur s = Ok x -> unm pf F o R t cur (pre ++ s) = Ok x.
+Proof.
+  intros Hs. induction pre as [|tk pre IH]; intros Hp F HF H.
+  - cbn [length app] in *. rewrite Nat.sub_0_r in H. exact H.
+  - cbn [forallb] in Hp. apply andb_true_iff in Hp. destruct Hp as [Htk Hp].
+    destruct F as [|F]; [cbn in HF; lia|]. cbn [app]. rewrite unm_typename by assumption.
+    apply IH; [exact Hp|cbn [length] in HF; lia|exact H].
+Qed.
+
+(* a value whose own stream is [reg_prefix t ++ body] with a non-TypeName head, behind any
+   number of further TypeName tokens *)
+Lemma rt_nonptr f t cur pre body tk r rest x n :
+  body = tk :: r -> is_tn tk = false -> forallb is_tn pre = true -> simple_ty t = true -> (1 <= n)%nat ->
+  (length pre + n < f + length (leadl (reg_prefix t ++ body)))%nat ->
+  (forall f1, (n <= S f1)%nat -> unm pf (S f1) o R t cur (body ++ rest) = Ok x) ->
+  unm pf f o R t cur (pre ++ strip (reg_prefix t ++ body) ++ rest) = Ok x.
+Proof.
+  intros -> Htk Hp Hs Hn Hf Hk. rewrite strip_prefix, leadl_prefix in *.
+  destruct (strip_ntn tk r Htk) as [E1 E2]. rewrite E1. rewrite E2 in Hf. cbn [length] in Hf.
+  pose proof (reg_prefix_len t) as Hl.
+  apply unm_skip_tns; [exact Hs|exact Hp|lia|].
+  destruct (f - length pre)%nat as [|f1] eqn:E; [lia|]. apply Hk. lia.
 Qed.
 
 Lemma unm_with_prefix F t cur body x :
-  reg_ok t = true -> simple_ty t = true -> (2 <= F)%nat ->
+  simple_ty t = true -> (2 <= F)%nat ->
   unm pf (pred F) o R t cur body = Ok x ->
   unm pf F o R t cur (reg_prefix t ++ body) = Ok x.
 Proof.
-  intros Hr Hs HF H. destruct F as [|F]; [lia|]. cbn [pred] in H.
+  intros Hs HF H. destruct F as [|F]; [lia|]. cbn [pred] in H.
   destruct (reg_prefix_cases t) as [E|[n E]]; rewrite E; cbn [app].
   - eapply unm_fuel_mono; [exact H|discriminate|lia].
-  - rewrite unm_typename; [exact H| |apply simple_underlying, Hs].
-    destruct (is_ptr_or_time (underlying t)) eqn:Hp; [|reflexivity].
-    rewrite (reg_prefix_ptr_time t Hr Hp) in E. discriminate.
+  - rewrite unm_typename; [exact H|exact Hs|reflexivity].
 Qed.
 
 Lemma unm_ptr_step f t e cur tk rest :
-  underlying t = TPtr e -> head_ok tk -> kind tk <> KNil ->
+  underlying t = TPtr e -> head_ok tk -> (kind tk =? KTypeName) = false -> kind tk <> KNil ->
   unm pf (S f) o R t cur (tk :: rest) =
   bind (unm pf f o R e (zero e) (tk :: rest)) (fun r => Ok (GPtr (Some (fst r)), snd r)).
 Proof.
-  intros Hut [Hl He] Hn. step_rec f. rewrite Hl. cbn [bind]. rewrite He.
+  intros Hut [Hl He] Ht Hn. step_rec f. rewrite Hl. cbn [bind]. rewrite Ht, He. cbn [andb].
   apply N.eqb_neq in Hn. rewrite Hn. rewrite Hut. reflexivity.
 Qed.
 
@@ -1486,6 +1525,66 @@ Lemma lsize_cons x l : lsize (x :: l) = (vsize x + lsize l)%nat. Proof. reflexiv
 Lemma vsize_pos v : (1 <= vsize v)%nat.
 Proof. destruct v as [| | | | | | | | | |[x|]| | |]; cbn [vsize]; lia. Qed.
 
+(* the first non-TypeName token of a marshalled stream; there are at most vsize v TypeName tokens before it *)
+Lemma strip_head o : forall v t ts,
+  has_type t v = true -> simple_ty t = true -> marshal o t v = Ok ts ->
+  (length (leadl ts) <= vsize v)%nat /\
+  exists tk r, strip ts = tk :: r /\ head_ok tk /\ is_tn tk = false /\
+               (kind tk = KNil -> no_ptr_to_nil v = true -> v = GPtr None).
+Proof.
+  assert (Hconst : forall t tk (v : gval), is_tn tk = false -> head_ok tk -> kind tk <> KNil ->
+            (length (leadl (reg_prefix t ++ [tk])) <= vsize v)%nat /\
+            exists tk' r, strip (reg_prefix t ++ [tk]) = tk' :: r /\ head_ok tk' /\ is_tn tk' = false /\
+                          (kind tk' = KNil -> no_ptr_to_nil v = true -> v = GPtr None)).
+  { intros t tk v Htn Hh Hk. rewrite strip_prefix, leadl_prefix. destruct (strip_ntn tk [] Htn) as [E1 E2].
+    rewrite E1, E2. cbn [length]. pose proof (reg_prefix_len t). pose proof (vsize_pos v). split; [lia|].
+    exists tk, []. repeat split; try assumption; try apply Hh. intros Hk'; contradiction. }
+  assert (Hcomp : forall t tk body (v : gval), is_tn tk = false -> head_ok tk -> kind tk <> KNil ->
+            (length (leadl (reg_prefix t ++ tk :: body)) <= vsize v)%nat /\
+            exists tk' r, strip (reg_prefix t ++ tk :: body) = tk' :: r /\ head_ok tk' /\ is_tn tk' = false /\
+                          (kind tk' = KNil -> no_ptr_to_nil v = true -> v = GPtr None)).
+  { intros t tk body v Htn Hh Hk. rewrite strip_prefix, leadl_prefix. destruct (strip_ntn tk body Htn) as [E1 E2].
+    rewrite E1, E2. cbn [length]. pose proof (reg_prefix_len t). pose proof (vsize_pos v). split; [lia|].
+    exists tk, body. repeat split; try assumption; try apply Hh. intros Hk'; contradiction. }
+  induction v as [b|z|n|b|b|s|n s|n l IH|n es|l IH| |x IH|d|r|e] using gval_ind2; intros t ts Hty Hs Hm.
+  - cbn [marshal bind] in Hm. injection Hm as <-. apply Hconst; [reflexivity|split; reflexivity|discriminate].
+  - cbn [marshal has_type] in Hm, Hty. destruct (underlying t); try discriminate.
+    cbn [bind] in Hm. injection Hm as <-. destruct w; (apply Hconst; [reflexivity|split; reflexivity|discriminate]).
+  - cbn [marshal has_type] in Hm, Hty. destruct (underlying t); try discriminate;
+    cbn [bind] in Hm; injection Hm as <-; try destruct w; (apply Hconst; [reflexivity|split; reflexivity|discriminate]).
+  - cbn [marshal] in Hm. destruct (f32_is_nan b); cbn [bind] in Hm; injection Hm as <-;
+      (apply Hconst; [reflexivity|split; reflexivity|discriminate]).
+  - cbn [marshal] in Hm. destruct (f64_is_nan b); cbn [bind] in Hm; injection Hm as <-;
+      (apply Hconst; [reflexivity|split; reflexivity|discriminate]).
+  - cbn [marshal bind] in Hm. injection Hm as <-. apply Hconst; [reflexivity|split; reflexivity|discriminate].
+  - cbn [marshal bind] in Hm. injection Hm as <-. apply Hconst; [reflexivity|split; reflexivity|discriminate].
+  - rewrite marshal_list in Hm. apply bind_ok in Hm. destruct Hm as (ts0 & Hm & Hts). injection Hts as <-.
+    apply bind_ok in Hm. destruct Hm as (body & _ & Hts). injection Hts as <-.
+    apply Hcomp; [reflexivity|split; reflexivity|discriminate].
+  - cbn [has_type] in Hty. exfalso. pose proof (simple_underlying t Hs) as Hsu.
+    destruct (underlying t); try discriminate.
+  - rewrite marshal_struct in Hm. apply bind_ok in Hm. destruct Hm as (ts0 & Hm & Hts). injection Hts as <-.
+    apply bind_ok in Hm. destruct Hm as (body & _ & Hts). injection Hts as <-.
+    apply Hcomp; [reflexivity|split; reflexivity|discriminate].
+  - cbn [marshal bind] in Hm. injection Hm as <-.
+    rewrite strip_prefix, leadl_prefix. pose proof (reg_prefix_len t). split; [cbn; lia|].
+    exists (T KNil VNone), []. repeat split; reflexivity.
+  - rewrite marshal_ptr in Hm. apply bind_ok in Hm. destruct Hm as (ts0 & Hm & Hts). injection Hts as <-.
+    cbn [has_type] in Hty. pose proof (simple_underlying t Hs) as Hsu. unfold pointee_ty in Hm.
+    destruct (underlying t) eqn:Hut; try discriminate. cbn [simple_ty] in Hsu.
+    destruct (IH _ _ Hty Hsu Hm) as (Hl & tk & r & E & Hh & Htn & Hnil).
+    rewrite strip_prefix, leadl_prefix. pose proof (reg_prefix_len t). split; [cbn [vsize]; lia|].
+    exists tk, r. repeat split; try assumption; try apply Hh. intros Hk Hnp. exfalso.
+    cbn [no_ptr_to_nil] in Hnp.
+    assert (Hx : no_ptr_to_nil x = true) by (destruct x as [| | | | | | | | | |[y|]| | |]; try exact Hnp; discriminate Hnp).
+    specialize (Hnil Hk Hx). subst x. discriminate Hnp.
+  - cbn [has_type] in Hty. exfalso. pose proof (simple_underlying t Hs) as Hsu.
+    destruct (underlying t); try discriminate.
+  - cbn [has_type] in Hty. exfalso. pose proof (simple_underlying t Hs) as Hsu.
+    destruct (underlying t); try discriminate.
+  - cbn [marshal bind] in Hm. injection Hm as <-. apply Hconst; [reflexivity|split; reflexivity|discriminate].
+Qed.
+
 Lemma head_not_arrend tk : head_ok tk -> (kind tk =? KArrayEnd) = false.
 Proof. intros [_ H]. unfold is_end_kind in H. apply orb_false_iff in H. destruct H as [H _].
   apply orb_false_iff in H. destruct H as [H _]. apply orb_false_iff in H. apply H. Qed.
@@ -1496,7 +1595,7 @@ Variable rec : rec_t.
 
 (* what the recursive call does on the stream of a typed element *)
 Definition elem_ok (x : gval) : Prop :=
-  forall ft a rest', wf_ty ft = true -> simple_ty ft = true -> reg_ok ft = true ->
+  forall ft a rest', wf_ty ft = true -> simple_ty ft = true ->
     has_type ft x = true -> no_ptr_to_nil x = true -> marshal default_opts ft x = Ok a ->
     rec ft (zero ft) (a ++ rest') = Ok (normal ft x, rest').
 
@@ -1509,13 +1608,13 @@ Proof.
   injection H as <-. exists a, b. repeat split; assumption.
 Qed.
 
-Lemma slice_loop_rt e : wf_ty e = true -> simple_ty e = true -> reg_ok e = true ->
+Lemma slice_loop_rt e : wf_ty e = true -> simple_ty e = true ->
   forall l, Forall elem_ok l -> all_typed e l = true -> forallb no_ptr_to_nil l = true ->
   forall body, melems default_opts e l = Ok body ->
   forall g acc rest, (length l < g)%nat ->
   slice_loop rec g e acc (body ++ T KArrayEnd VNone :: rest) = Ok (acc ++ map (normal e) l, rest).
 Proof.
-  intros Hwf Hs Hr. induction 1 as [|x l Hx _ IH]; intros Hty Hnp body Hm g acc rest Hg.
+  intros Hwf Hs. induction 1 as [|x l Hx _ IH]; intros Hty Hnp body Hm g acc rest Hg.
   - injection Hm as <-. destruct g as [|g]; [clear - Hg; cbn in Hg; lia|]. cbn [app slice_loop map kind].
     rewrite app_nil_r. reflexivity.
   - apply melems_cons_inv in Hm. destruct Hm as (a & b & Ha & Hb & ->).
@@ -1526,19 +1625,19 @@ Proof.
     destruct g as [|g]; [clear - Hg; cbn [length] in Hg; lia|]. rewrite <- app_assoc. cbn [app slice_loop].
     rewrite (head_not_arrend tk Hh).
     change (tk :: r ++ b ++ T KArrayEnd VNone :: rest) with ((tk :: r) ++ b ++ T KArrayEnd VNone :: rest).
-    rewrite (Hx e (tk :: r) _ Hwf Hs Hr Htx Hnx Ha). cbn [bind fst snd].
+    rewrite (Hx e (tk :: r) _ Hwf Hs Htx Hnx Ha). cbn [bind fst snd].
     rewrite (IH Htl Hnl b Hb g) by (clear - Hg; cbn [length] in Hg; lia).
     rewrite <- app_assoc. reflexivity.
 Qed.
 
-Lemma arr_loop_rt e : wf_ty e = true -> simple_ty e = true -> reg_ok e = true ->
+Lemma arr_loop_rt e : wf_ty e = true -> simple_ty e = true ->
   forall l, Forall elem_ok l -> all_typed e l = true -> forallb no_ptr_to_nil l = true ->
   forall body, melems default_opts e l = Ok body ->
   forall g done rest, (length l < g)%nat ->
   arr_loop rec g e (done ++ repeat (zero e) (length l)) (length done) (body ++ T KArrayEnd VNone :: rest)
   = Ok (done ++ map (normal e) l, rest).
 Proof.
-  intros Hwf Hs Hr. induction 1 as [|x l Hx _ IH]; intros Hty Hnp body Hm g done rest Hg.
+  intros Hwf Hs. induction 1 as [|x l Hx _ IH]; intros Hty Hnp body Hm g done rest Hg.
   - injection Hm as <-. destruct g as [|g]; [clear - Hg; cbn in Hg; lia|]. cbn [app arr_loop map kind length repeat].
     reflexivity.
   - apply melems_cons_inv in Hm. destruct Hm as (a & b & Ha & Hb & ->).
@@ -1552,7 +1651,7 @@ Proof.
     { apply Nat.leb_gt. rewrite app_length. cbn [length]. clear. lia. }
     rewrite Hlen, nth_app_here.
     change (tk :: r ++ b ++ T KArrayEnd VNone :: rest) with ((tk :: r) ++ b ++ T KArrayEnd VNone :: rest).
-    rewrite (Hx e (tk :: r) _ Hwf Hs Hr Htx Hnx Ha). cbn [bind fst snd].
+    rewrite (Hx e (tk :: r) _ Hwf Hs Htx Hnx Ha). cbn [bind fst snd].
     rewrite set_nth_app.
     specialize (IH Htl Hnl b Hb g (done ++ [normal e x]) rest ltac:(clear - Hg; cbn [length] in Hg; lia)).
     rewrite <- !app_assoc in IH. cbn [app] in IH.
@@ -1596,24 +1695,22 @@ Lemma struct_loop_rt : forall l, Forall elem_ok l ->
   forall fsall pre fs donev body, fsall = pre ++ fs -> names_nodup fsall = true ->
   forallb (fun f => wf_bytesb (fname f) && wf_ty (snd f)) fs = true ->
   forallb (fun f => simple_ty (snd f)) fs = true ->
-  forallb (fun f => reg_ok (snd f)) fs = true ->
   fields_typed l fs = true -> forallb no_ptr_to_nil l = true ->
   mfields default_opts l fs = Ok body -> length donev = length pre ->
   forall g depr rest, (length body < g)%nat ->
   struct_loop o rec g fsall depr (donev ++ map (fun fd => zero (snd fd)) fs) (body ++ T KObjectEnd VNone :: rest)
   = Ok (donev ++ nfields l fs, rest).
 Proof.
-  induction 1 as [|x l Hx _ IH]; intros fsall pre fs donev body Hall Hnd Hwf Hs Hr Hty Hnp Hm Hlen g depr rest Hg.
+  induction 1 as [|x l Hx _ IH]; intros fsall pre fs donev body Hall Hnd Hwf Hs Hty Hnp Hm Hlen g depr rest Hg.
   - destruct fs as [|fd fs]; [|discriminate Hty]. injection Hm as <-.
     destruct g as [|g]; [clear - Hg; cbn in Hg; lia|]. reflexivity.
   - destruct fs as [|fd fs]; [discriminate Hty|].
     change (fields_typed (x :: l) (fd :: fs)) with (has_type (snd fd) x && fields_typed l fs) in Hty.
     apply andb_true_iff in Hty. destruct Hty as [Htx Htl].
-    cbn [forallb] in Hnp, Hwf, Hs, Hr.
+    cbn [forallb] in Hnp, Hwf, Hs.
     apply andb_true_iff in Hnp. destruct Hnp as [Hnx Hnl].
     apply andb_true_iff in Hwf. destruct Hwf as [Hwx Hwl]. apply andb_true_iff in Hwx. destruct Hwx as [_ Hwx].
     apply andb_true_iff in Hs. destruct Hs as [Hsx Hsl].
-    apply andb_true_iff in Hr. destruct Hr as [Hrx Hrl].
     apply mfields_cons_inv in Hm.
     assert (Hnext : forall y body' g', mfields default_opts l fs = Ok body' -> (length body' < g')%nat ->
               struct_loop o rec g' fsall depr ((donev ++ [y]) ++ map (fun fd => zero (snd fd)) fs)
@@ -1631,7 +1728,7 @@ Proof.
       rewrite Hname. cbn [bind fst snd].
       subst fsall. rewrite (find_field_at pre fd fs 0 Hnd Hex). cbn [Nat.add].
       rewrite <- Hlen, nth_app_here. rewrite <- app_assoc.
-      rewrite (Hx (snd fd) a _ Hwx Hsx Hrx Htx Hnx Ha). cbn [bind fst snd].
+      rewrite (Hx (snd fd) a _ Hwx Hsx Htx Hnx Ha). cbn [bind fst snd].
       rewrite set_nth_app.
       specialize (Hnext (normal (snd fd) x) b g Hb ltac:(clear - Hg; cbn [length] in Hg; rewrite app_length in Hg; lia)).
       rewrite <- !app_assoc in Hnext. cbn [app] in Hnext. exact Hnext.
@@ -1647,16 +1744,21 @@ Variable pf : bytes -> N -> option N.
 Variable o : copts.
 Variable R : registry.
 
+(* generalised over extra TypeName tokens in front ([pre]) and stated on the stream stripped of its
+   own leading TypeName tokens: a pointer target skips them before dereferencing, so the pointee never
+   sees its own prefix.  The stripped stream needs [length (leadl ts)] less fuel. *)
 Definition rt_ok (v : gval) : Prop :=
-  forall t ts, wf_ty t = true -> simple_ty t = true -> reg_ok t = true ->
+  forall t ts, wf_ty t = true -> simple_ty t = true ->
     has_type t v = true -> no_ptr_to_nil v = true -> marshal default_opts t v = Ok ts ->
-    forall f rest, (2 * vsize v < f)%nat ->
-    unm pf f o R t (zero t) (ts ++ rest) = Ok (normal t v, rest).
+    forall pre f rest, forallb is_tn pre = true ->
+    (length pre + 2 * vsize v < f + length (leadl ts))%nat ->
+    unm pf f o R t (zero t) (pre ++ strip ts ++ rest) = Ok (normal t v, rest).
 
 Lemma rt_elem_ok f l : Forall rt_ok l -> (2 * lsize l < f)%nat -> Forall (elem_ok (unm pf f o R)) l.
 Proof.
   induction 1 as [|x l Hx _ IH]; intros Hf; constructor.
-  - intros ft a rest' Hwf Hs Hr Ht Hn Hm. apply Hx; try assumption.
+  - intros ft a rest' Hwf Hs Ht Hn Hm.
+    rewrite <- (leadl_strip a), <- app_assoc. apply Hx; try assumption; [apply leadl_tn|].
     rewrite lsize_cons in Hf. clear - Hf. lia.
   - apply IH. rewrite lsize_cons in Hf. clear - Hf. lia.
 Qed.
@@ -1672,64 +1774,52 @@ Proof.
   specialize (IH b Htl Hs Hb). rewrite app_length. cbn [length]. clear - IH. lia.
 Qed.
 
-(* a scalar / leaf case: prefix, then one step *)
-Ltac leaf_case Hwf Hs Hr Hm Hf step :=
-  cbn [marshal] in Hm;
-  match type of Hm with bind ?b _ = _ => idtac end;
-  cbn [bind] in Hm; injection Hm as <-; rewrite <- app_assoc;
-  apply unm_with_prefix; [assumption|assumption|clear - Hf; cbn [vsize] in Hf; lia|];
-  match goal with
-  | |- unm _ (pred ?F) _ _ _ _ _ = _ =>
-      destruct F as [|[|F']]; [clear - Hf; cbn [vsize] in Hf; lia|clear - Hf; cbn [vsize] in Hf; lia|]
-  end;
-  cbn [pred app]; step.
+(* leaf values: [reg_prefix t ++ [tk]] *)
+Ltac leaf_case Hs Hp Hf step :=
+  eapply (rt_nonptr pf o R); [reflexivity|reflexivity|exact Hp|exact Hs| |exact Hf|];
+  [cbn [vsize]; lia|]; intros f1 _; cbn [app]; step.
 
 Theorem roundtrip_all : forall v, rt_ok v.
 Proof.
   induction v as [b|z|n|b|b|s|n s|n l IH|n es|l IH| |x IH|d|r|e] using gval_ind2;
-    intros t ts Hwf Hs Hr Hty Hnp Hm f rest Hf;
-    pose proof (simple_underlying t Hs) as Hsu; pose proof (wf_underlying t Hwf) as Hwu;
-    pose proof (reg_ok_underlying t Hr) as Hru.
+    intros t ts Hwf Hs Hty Hnp Hm pre f rest Hp Hf;
+    pose proof (simple_underlying t Hs) as Hsu; pose proof (wf_underlying t Hwf) as Hwu.
   - (* bool *)
     cbn [has_type] in Hty. destruct (underlying t) eqn:Hut; try discriminate.
-    leaf_case Hwf Hs Hr Hm Hf ltac:(apply unm_bool; exact Hut).
+    cbn [marshal bind] in Hm. injection Hm as <-.
+    leaf_case Hs Hp Hf ltac:(apply unm_bool; exact Hut).
   - (* int *)
     cbn [has_type marshal] in Hty, Hm. destruct (underlying t) eqn:Hut; try discriminate.
-    cbn [bind] in Hm. injection Hm as <-. rewrite <- app_assoc.
-    apply unm_with_prefix; [assumption|assumption|clear - Hf; cbn [vsize] in Hf; lia|].
-    destruct f as [|[|f']]; [clear - Hf; cbn [vsize] in Hf; lia|clear - Hf; cbn [vsize] in Hf; lia|].
-    cbn [pred app]. apply unm_int; exact Hut.
+    cbn [bind] in Hm. injection Hm as <-.
+    destruct w; leaf_case Hs Hp Hf ltac:(apply (unm_int pf o R _ _ _ _ _ _ Hut)).
   - (* uint / uintptr *)
     cbn [has_type marshal] in Hty, Hm. destruct (underlying t) eqn:Hut; try discriminate;
-    cbn [bind] in Hm; injection Hm as <-; rewrite <- app_assoc;
-    (apply unm_with_prefix; [assumption|assumption|clear - Hf; cbn [vsize] in Hf; lia|]);
-    (destruct f as [|[|f']]; [clear - Hf; cbn [vsize] in Hf; lia|clear - Hf; cbn [vsize] in Hf; lia|]);
-    cbn [pred app]; [apply unm_uint; exact Hut|apply unm_uintptr; exact Hut].
+    cbn [bind] in Hm; injection Hm as <-.
+    + destruct w; leaf_case Hs Hp Hf ltac:(apply (unm_uint pf o R _ _ _ _ _ _ Hut)).
+    + leaf_case Hs Hp Hf ltac:(apply unm_uintptr; exact Hut).
   - (* float32 *)
     cbn [has_type] in Hty. destruct (underlying t) eqn:Hut; try discriminate.
-    cbn [marshal normal] in Hm |- *. destruct (f32_is_nan b);
-    cbn [bind] in Hm; injection Hm as <-; rewrite <- app_assoc;
-    (apply unm_with_prefix; [assumption|assumption|clear - Hf; cbn [vsize] in Hf; lia|]);
-    (destruct f as [|[|f']]; [clear - Hf; cbn [vsize] in Hf; lia|clear - Hf; cbn [vsize] in Hf; lia|]);
-    cbn [pred app]; [apply unm_nan32; exact Hut|apply unm_f32; exact Hut].
+    cbn [marshal normal] in Hm |- *. destruct (f32_is_nan b); cbn [bind] in Hm; injection Hm as <-.
+    + leaf_case Hs Hp Hf ltac:(apply unm_nan32; exact Hut).
+    + leaf_case Hs Hp Hf ltac:(apply unm_f32; exact Hut).
   - (* float64 *)
     cbn [has_type] in Hty. destruct (underlying t) eqn:Hut; try discriminate.
-    cbn [marshal normal] in Hm |- *. destruct (f64_is_nan b);
-    cbn [bind] in Hm; injection Hm as <-; rewrite <- app_assoc;
-    (apply unm_with_prefix; [assumption|assumption|clear - Hf; cbn [vsize] in Hf; lia|]);
-    (destruct f as [|[|f']]; [clear - Hf; cbn [vsize] in Hf; lia|clear - Hf; cbn [vsize] in Hf; lia|]);
-    cbn [pred app]; [apply unm_nan64; exact Hut|apply unm_f64; exact Hut].
+    cbn [marshal normal] in Hm |- *. destruct (f64_is_nan b); cbn [bind] in Hm; injection Hm as <-.
+    + leaf_case Hs Hp Hf ltac:(apply unm_nan64; exact Hut).
+    + leaf_case Hs Hp Hf ltac:(apply unm_f64; exact Hut).
   - (* string *)
     cbn [has_type] in Hty. destruct (underlying t) eqn:Hut; try discriminate.
-    leaf_case Hwf Hs Hr Hm Hf ltac:(apply unm_string; exact Hut).
+    cbn [marshal bind] in Hm. injection Hm as <-.
+    leaf_case Hs Hp Hf ltac:(apply unm_string; exact Hut).
   - (* bytes / byte array *)
-    cbn [has_type] in Hty. destruct (underlying t) eqn:Hut; try discriminate.
-    + leaf_case Hwf Hs Hr Hm Hf ltac:(apply unm_bytes; exact Hut).
-    + leaf_case Hwf Hs Hr Hm Hf ltac:(idtac).
+    cbn [has_type] in Hty. destruct (underlying t) eqn:Hut; try discriminate;
+    cbn [marshal bind] in Hm; injection Hm as <-.
+    + leaf_case Hs Hp Hf ltac:(apply unm_bytes; exact Hut).
+    + leaf_case Hs Hp Hf ltac:(idtac).
       rewrite (unm_bytearray pf o R _ _ _ _ _ _ Hut). cbn [normal].
       apply andb_true_iff in Hty. destruct Hty as [Hty _]. apply andb_true_iff in Hty. destruct Hty as [_ Hlen].
       apply Nat.eqb_eq in Hlen. rewrite zero_underlying, Hut. cbn [zero bytes_of_gval].
-      rewrite <- Hlen, firstn_all. 
+      rewrite <- Hlen, firstn_all.
       assert (Hsk : forall k, skipn k (rep k 0) = []) by (induction k; [reflexivity|assumption]).
       rewrite Hsk, app_nil_r. reflexivity.
   - (* list: array or slice *)
@@ -1737,29 +1827,29 @@ Proof.
     apply bind_ok in Hm. destruct Hm as (ts0 & Hm & Hts). injection Hts as <-.
     apply bind_ok in Hm. destruct Hm as (body & Hm & Hts). injection Hts as <-.
     cbn [forallb no_ptr_to_nil] in Hnp. rewrite vsize_list in Hf.
-    rewrite <- app_assoc. apply unm_with_prefix; [assumption|assumption|clear - Hf; lia|].
-    destruct f as [|[|f']]; [clear - Hf; lia|clear - Hf; lia|]. cbn [pred].
-    pose proof (rt_elem_ok f' l IH ltac:(clear - Hf; lia)) as Hel.
+    eapply (rt_nonptr pf o R); [reflexivity|reflexivity|exact Hp|exact Hs| |exact Hf|]; [clear; lia|].
+    intros f' Hf'.
+    pose proof (rt_elem_ok f' l IH ltac:(clear - Hf'; lia)) as Hel.
     unfold elem_ty in Hm.
     destruct (underlying t) eqn:Hut; try discriminate.
     + (* array *)
-      cbn [wf_ty simple_ty reg_ok] in Hwu, Hsu, Hru.
+      cbn [wf_ty simple_ty] in Hwu, Hsu.
       apply andb_true_iff in Hty. destruct Hty as [Hty Hall]. apply andb_true_iff in Hty. destruct Hty as [_ Hlen].
       apply Nat.eqb_eq in Hlen.
       cbn [app]. rewrite (unm_array_step pf o R _ _ _ _ _ _ Hut).
       rewrite zero_underlying, Hut. cbn [zero items_of_gval]. rewrite <- Hlen.
       rewrite <- app_assoc. cbn [app].
-      pose proof (arr_loop_rt (unm pf f' o R) _ Hwu Hsu Hru l Hel Hall Hnp body Hm
+      pose proof (arr_loop_rt (unm pf f' o R) _ Hwu Hsu l Hel Hall Hnp body Hm
                     (S (length (body ++ T KArrayEnd VNone :: rest))) [] rest) as Hloop.
       cbn [app length] in Hloop. rewrite Hloop; [reflexivity|].
       pose proof (melems_length _ _ _ Hall Hsu Hm) as Hl. rewrite app_length. clear - Hl. lia.
     + (* slice *)
-      cbn [wf_ty simple_ty reg_ok] in Hwu, Hsu, Hru.
+      cbn [wf_ty simple_ty] in Hwu, Hsu.
       apply andb_true_iff in Hty. destruct Hty as [_ Hall].
       cbn [app]. rewrite (unm_slice_step pf o R _ _ _ _ _ Hut).
       rewrite zero_underlying, Hut. cbn [zero items_of_gval is_nil_container].
       rewrite <- app_assoc. cbn [app].
-      rewrite (slice_loop_rt (unm pf f' o R) _ Hwu Hsu Hru l Hel Hall Hnp body Hm).
+      rewrite (slice_loop_rt (unm pf f' o R) _ Hwu Hsu l Hel Hall Hnp body Hm).
       * cbn [bind fst snd app andb]. destruct l; reflexivity.
       * pose proof (melems_length _ _ _ Hall Hsu Hm) as Hl. rewrite app_length. clear - Hl. lia.
   - (* map: excluded *)
@@ -1769,67 +1859,72 @@ Proof.
     apply bind_ok in Hm. destruct Hm as (ts0 & Hm & Hts). injection Hts as <-.
     apply bind_ok in Hm. destruct Hm as (body & Hm & Hts). injection Hts as <-.
     cbn [no_ptr_to_nil] in Hnp. rewrite vsize_struct in Hf.
-    rewrite <- app_assoc. apply unm_with_prefix; [assumption|assumption|clear - Hf; lia|].
-    destruct f as [|[|f']]; [clear - Hf; lia|clear - Hf; lia|]. cbn [pred].
-    pose proof (rt_elem_ok f' l IH ltac:(clear - Hf; lia)) as Hel.
+    eapply (rt_nonptr pf o R); [reflexivity|reflexivity|exact Hp|exact Hs| |exact Hf|]; [clear; lia|].
+    intros f' Hf'.
+    pose proof (rt_elem_ok f' l IH ltac:(clear - Hf'; lia)) as Hel.
     unfold fields_of in Hm.
     destruct (underlying t) eqn:Hut; try discriminate.
     rewrite wf_ty_struct in Hwu. apply andb_true_iff in Hwu. destruct Hwu as [Hwfs Hnd].
-    cbn [simple_ty reg_ok] in Hsu, Hru.
+    cbn [simple_ty] in Hsu.
     cbn [app]. rewrite (unm_struct_step pf o R _ _ _ _ _ Hut).
     rewrite zero_underlying, Hut. cbn [zero]. rewrite <- app_assoc. cbn [app].
     assert (Hnm : forall s cur rest', unm pf f' o R TString cur (T KString (VStr s) :: rest') = Ok (GStr s, rest')).
-    { destruct f' as [|f'']; [clear - Hf; lia|]. intros. apply unm_name. }
-    pose proof (struct_loop_rt o (unm pf f' o R) Hnm l Hel fs [] fs [] body eq_refl Hnd Hwfs Hsu Hru Hty Hnp Hm eq_refl
+    { destruct f' as [|f'']; [clear - Hf'; lia|]. intros. apply unm_name. }
+    pose proof (struct_loop_rt o (unm pf f' o R) Hnm l Hel fs [] fs [] body eq_refl Hnd Hwfs Hsu Hty Hnp Hm eq_refl
                   (S (length (body ++ T KObjectEnd VNone :: rest))) (depr_of t) rest) as Hloop.
     cbn [app] in Hloop. rewrite Hloop; [reflexivity|].
     rewrite app_length. clear. lia.
   - (* nil pointer *)
     cbn [has_type] in Hty. destruct (underlying t) eqn:Hut; try discriminate.
-    cbn [marshal bind] in Hm. injection Hm as <-.
-    rewrite (reg_prefix_ptr_time t Hr) by (rewrite Hut; reflexivity). cbn [app normal].
-    destruct f as [|f']; [clear - Hf; lia|]. rewrite nil_leaves_untouched by (rewrite Hut; discriminate).
+    cbn [marshal bind] in Hm. injection Hm as <-. cbn [normal].
+    leaf_case Hs Hp Hf ltac:(idtac).
+    rewrite nil_leaves_untouched by (rewrite Hut; discriminate).
     rewrite zero_underlying, Hut. reflexivity.
   - (* non-nil pointer *)
     cbn [has_type] in Hty. destruct (underlying t) eqn:Hut; try discriminate.
     rewrite marshal_ptr in Hm. unfold pointee_ty in Hm. rewrite Hut in Hm.
-    apply bind_ok in Hm. destruct Hm as (ts0 & Hm & Hts). injection Hts as <-.
-    rewrite (reg_prefix_ptr_time t Hr) by (rewrite Hut; reflexivity). cbn [app normal]. rewrite Hut.
-    cbn [wf_ty simple_ty reg_ok] in Hwu, Hsu, Hru.
+    apply bind_ok in Hm. destruct Hm as (tsx & Hm & Hts). injection Hts as <-.
+    cbn [normal]. rewrite Hut. cbn [wf_ty simple_ty] in Hwu, Hsu.
     assert (Hnx : no_ptr_to_nil x = true /\ x <> GPtr None).
     { cbn [no_ptr_to_nil] in Hnp. destruct x as [| | | | | | | | | |[y|]| | |]; try (split; [exact Hnp|discriminate]).
       discriminate Hnp. }
     destruct Hnx as [Hnx Hxn].
-    destruct (marshal_head _ _ _ _ Hty Hsu Hm) as (tk & r & -> & Hh & Hnil).
-    destruct f as [|f']; [clear - Hf; lia|]. cbn [app].
-    rewrite (unm_ptr_step pf o R f' t _ _ tk _ Hut Hh) by (intros Hk; apply Hxn, Hnil; assumption).
-    change (tk :: r ++ rest) with ((tk :: r) ++ rest).
-    rewrite (IH _ _ Hwu Hsu Hru Hty Hnx Hm f' rest) by (clear - Hf; cbn [vsize] in Hf; lia).
+    destruct (strip_head _ _ _ _ Hty Hsu Hm) as (Hlead & tk & r & E & Hh & Htn & Hnil).
+    rewrite strip_prefix. rewrite leadl_prefix in Hf. pose proof (reg_prefix_len t) as Hpl.
+    cbn [vsize] in Hf.
+    apply unm_skip_tns; [exact Hs|exact Hp|clear - Hf Hlead Hpl; lia|].
+    destruct (f - length pre)%nat as [|f1] eqn:Ef; [clear - Hf Hlead Hpl Ef; lia|].
+    rewrite E. cbn [app].
+    rewrite (unm_ptr_step pf o R f1 t _ _ tk _ Hut Hh Htn) by (intros Hk; apply Hxn, Hnil; assumption).
+    change (tk :: r ++ rest) with ([] ++ (tk :: r) ++ rest). rewrite <- E.
+    rewrite (IH _ _ Hwu Hsu Hty Hnx Hm [] f1 rest eq_refl) by (cbn [length]; clear - Hf Hlead Hpl Ef; lia).
     reflexivity.
   - cbn [has_type] in Hty. destruct (underlying t); discriminate.
   - cbn [has_type] in Hty. destruct (underlying t); discriminate.
   - (* time *)
     cbn [has_type] in Hty. destruct (underlying t) eqn:Hut; try discriminate.
     apply andb_true_iff in Hty. destruct Hty as [_ Hv].
-    cbn [marshal bind] in Hm. injection Hm as <-.
-    rewrite (reg_prefix_ptr_time t Hr) by (rewrite Hut; reflexivity). cbn [app normal].
-    destruct f as [|f']; [clear - Hf; lia|]. apply unm_time; assumption.
+    cbn [marshal bind] in Hm. injection Hm as <-. cbn [normal].
+    leaf_case Hs Hp Hf ltac:(apply unm_time; assumption).
 Qed.
 
 End RoundTrip.
 
-(* item 4.  The statement of the task (without [reg_ok]) is false in the model: see
-   [roundtrip_simple_refuted] below.  The extra hypothesis: no REGISTERED defined type has a pointer
-   or time.Time as its underlying type. *)
+(* item 4.  (Since the TypeName-first repair of the unmarshaller no restriction on registered types is
+   needed: a concrete target skips TypeName tokens before the time bridge and before any pointer
+   dereference.) *)
 Theorem roundtrip_simple_fuel pf o R t v ts rest f :
-  wf_ty t = true -> simple_ty t = true -> reg_ok t = true ->
+  wf_ty t = true -> simple_ty t = true ->
   has_type t v = true -> no_ptr_to_nil v = true ->
   marshal default_opts t v = Ok ts -> (2 * vsize v < f)%nat ->
   unm pf f o R t (zero t) (ts ++ rest) = Ok (normal t v, rest).
-Proof. intros. eapply roundtrip_all; eassumption. Qed.
+Proof.
+  intros Hwf Hs Ht Hn Hm Hf. rewrite <- (leadl_strip ts), <- app_assoc.
+  apply (roundtrip_all pf o R v t ts); try assumption; [apply leadl_tn|lia].
+Qed.
 
-Theorem roundtrip_simple_partial pf o R t v ts rest :
-  wf_ty t = true -> simple_ty t = true -> reg_ok t = true ->
+Theorem roundtrip_simple pf o R t v ts rest :
+  wf_ty t = true -> simple_ty t = true ->
   has_type t v = true -> no_ptr_to_nil v = true ->
   marshal default_opts t v = Ok ts ->
   exists f, unm pf f o R t (zero t) (ts ++ rest) = Ok (normal t v, rest).
@@ -1839,19 +1934,48 @@ Proof. intros. exists (S (2 * vsize v)). eapply roundtrip_simple_fuel; try eassu
 Definition canonical_val (t : ty) (v : gval) : Prop := normal t v = v.
 
 Corollary roundtrip_simple_exact pf o R t v ts rest :
-  wf_ty t = true -> simple_ty t = true -> reg_ok t = true ->
+  wf_ty t = true -> simple_ty t = true ->
   has_type t v = true -> no_ptr_to_nil v = true -> canonical_val t v ->
   marshal default_opts t v = Ok ts ->
   exists f, unm pf f o R t (zero t) (ts ++ rest) = Ok (v, rest).
 Proof.
-  intros Hwf Hs Hr Ht Hn Hc Hm. destruct (roundtrip_simple_partial pf o R t v ts rest Hwf Hs Hr Ht Hn Hm) as (f & Hf).
+  intros Hwf Hs Ht Hn Hc Hm. destruct (roundtrip_simple pf o R t v ts rest Hwf Hs Ht Hn Hm) as (f & Hf).
   exists f. rewrite Hf, Hc. reflexivity.
 Qed.
 
-(* the two ways the unrestricted statement fails *)
+(* the two former counterexamples (defects of the Go code, since repaired): the nil value of a
+   registered pointer type and a value of a registered time type now round-trip *)
 Definition RegPtr : ty := TNamed [80] true [] (TPtr (TInt WNat)).
 Definition RegTime : ty := TNamed [84] true [] TTime.
 Definition zero_time : bytes := [1; 0; 0; 0; 0; 0; 0; 0; 0; 0; 0; 0; 0; 255; 255].
+
+Example roundtrip_regptr_nil pf o R rest :
+  marshal default_opts RegPtr (GPtr None) = Ok [T KTypeName (VStr [80]); T KNil VNone] /\
+  exists f, unm pf f o R RegPtr (zero RegPtr) ([T KTypeName (VStr [80]); T KNil VNone] ++ rest) = Ok (GPtr None, rest).
+Proof.
+  split; [reflexivity|].
+  apply (roundtrip_simple pf o R RegPtr (GPtr None)); reflexivity.
+Qed.
+
+Example roundtrip_regptr_nonnil pf o R rest :
+  exists f, unm pf f o R RegPtr (zero RegPtr) ([T KTypeName (VStr [80]); T KInt (VI WNat 7)] ++ rest)
+            = Ok (GPtr (Some (GInt 7)), rest).
+Proof. apply (roundtrip_simple pf o R RegPtr (GPtr (Some (GInt 7)))); reflexivity. Qed.
+
+Example roundtrip_regtime pf o R rest :
+  marshal default_opts RegTime (GTime zero_time) = Ok [T KTypeName (VStr [84]); T KString (VStr zero_time)] /\
+  exists f, unm pf f o R RegTime (zero RegTime) ([T KTypeName (VStr [84]); T KString (VStr zero_time)] ++ rest)
+            = Ok (GTime zero_time, rest).
+Proof.
+  split; [reflexivity|].
+  apply (roundtrip_simple pf o R RegTime (GTime zero_time)); reflexivity.
+Qed.
+
+Example roundtrip_reg_run :
+  unm (fun _ _ => None) 5 default_opts [] RegPtr (zero RegPtr) [T KTypeName (VStr [80]); T KNil VNone] = Ok (GPtr None, []) /\
+  unm (fun _ _ => None) 5 default_opts [] RegTime (zero RegTime) [T KTypeName (VStr [84]); T KString (VStr zero_time)]
+  = Ok (GTime zero_time, []).
+Proof. split; vm_compute; reflexivity. Qed.
 
 Lemma unm_not_from (pf : bytes -> N -> option N) o R t cur ts f0 r r' :
   unm pf f0 o R t cur ts = r -> r <> OutOfFuel -> r <> r' -> r' <> OutOfFuel ->
@@ -1861,29 +1985,6 @@ Proof.
   destruct (Nat.le_ge_cases f f0) as [Hle|Hle].
   - pose proof (unm_fuel_mono pf o R f t cur ts r' H Hr' f0 Hle). congruence.
   - pose proof (unm_fuel_mono pf o R f0 t cur ts r H0 Hr f Hle). congruence.
-Qed.
-
-Theorem roundtrip_simple_refuted :
-  exists pf o R t v ts,
-    wf_ty t = true /\ simple_ty t = true /\ has_type t v = true /\ no_ptr_to_nil v = true /\
-    marshal default_opts t v = Ok ts /\
-    forall f, unm pf f o R t (zero t) (ts ++ []) <> Ok (normal t v, []).
-Proof.
-  exists (fun _ _ => None), default_opts, [], RegPtr, (GPtr None), [T KTypeName (VStr [80]); T KNil VNone].
-  repeat split; try reflexivity.
-  apply (unm_not_from _ _ _ _ _ _ 5%nat (Ok (GPtr (Some (GInt 0)), []))); [vm_compute; reflexivity|discriminate..].
-Qed.
-
-Theorem roundtrip_simple_refuted_time :
-  exists pf o R t v ts,
-    wf_ty t = true /\ simple_ty t = true /\ has_type t v = true /\ no_ptr_to_nil v = true /\
-    marshal default_opts t v = Ok ts /\
-    forall f, unm pf f o R t (zero t) (ts ++ []) <> Ok (normal t v, []).
-Proof.
-  exists (fun _ _ => None), default_opts, [], RegTime, (GTime zero_time),
-         [T KTypeName (VStr [84]); T KString (VStr zero_time)].
-  repeat split; try reflexivity.
-  apply (unm_not_from _ _ _ _ _ _ 5%nat (Err (EMismatch KTypeName 24))); [vm_compute; reflexivity|discriminate..].
 Qed.
 
 (* ---- examples: a nested struct with a slice of pointers to a registered named struct that has
@@ -1900,7 +2001,7 @@ Definition ex_outer : gval :=
            GBytes true []; GList false []; GTime zero_time; GPtr (Some (GPtr (Some (GBool true))))].
 
 Example roundtrip_ex_hyps :
-  wf_ty ExOuter = true /\ simple_ty ExOuter = true /\ reg_ok ExOuter = true /\
+  wf_ty ExOuter = true /\ simple_ty ExOuter = true /\
   has_type ExOuter ex_outer = true /\ no_ptr_to_nil ex_outer = true /\
   exists ts, marshal default_opts ExOuter ex_outer = Ok ts.
 Proof. repeat split; try (vm_compute; reflexivity). eexists. vm_compute. reflexivity. Qed.
@@ -1924,7 +2025,7 @@ Example roundtrip_ex_thm : forall pf o R ts rest,
   marshal default_opts ExOuter ex_outer = Ok ts ->
   exists f, unm pf f o R ExOuter (zero ExOuter) (ts ++ rest) = Ok (normal ExOuter ex_outer, rest).
 Proof.
-  intros pf o R ts rest H. apply roundtrip_simple_partial; try assumption; vm_compute; reflexivity.
+  intros pf o R ts rest H. apply roundtrip_simple; try assumption; vm_compute; reflexivity.
 Qed.
 
 (* ====================================================================================== *)
@@ -2377,7 +2478,7 @@ Lemma struct_loop_byname : forall wvals, Forall (elem_ok rec) wvals ->
   (forall wf wv i ft, In (wf, wv) (combine wfs wvals) -> fexported wf = true ->
      find_field (fname wf) rfs 0 = Some (i, ft) ->
      ft = snd wf /\ nth i vals (zero ft) = zero ft /\
-     simple_ty ft = true /\ reg_ok ft = true /\ no_ptr_to_nil wv = true) ->
+     simple_ty ft = true /\ no_ptr_to_nil wv = true) ->
   forall g rest, (length body < g)%nat ->
   struct_loop o rec g rfs depr vals (body ++ T KObjectEnd VNone :: rest)
   = Ok (apply_fields rfs (combine wfs wvals) vals, rest).
@@ -2400,9 +2501,9 @@ Proof.
       destruct g as [|g]; [clear - Hg; cbn [length] in Hg; lia|]. cbn [app].
       assert (Hg' : (length b < g)%nat) by (clear - Hg; cbn [length] in Hg; rewrite app_length in Hg; lia).
       destruct (find_field (fname fd) rfs 0) as [[i ft]|] eqn:Hff.
-      * destruct (Hcom fd x i ft (or_introl eq_refl) Hex Hff) as (-> & Hz & Hsx & Hrx & Hnx).
+      * destruct (Hcom fd x i ft (or_introl eq_refl) Hex Hff) as (-> & Hz & Hsx & Hnx).
         rewrite (struct_loop_known _ _ _ _ _ _ _ _ Hff). rewrite Hz, <- app_assoc.
-        rewrite (Hx (snd fd) a _ Hwx Hsx Hrx Htx Hnx Ha). cbn [bind fst snd].
+        rewrite (Hx (snd fd) a _ Hwx Hsx Htx Hnx Ha). cbn [bind fst snd].
         apply IH; try assumption.
         intros wf wv i' ft' Hin Hex' Hff'.
         destruct (Hcom wf wv i' ft' (or_intror Hin) Hex' Hff') as (-> & Hz' & Hrest). split; [reflexivity|].
@@ -2429,12 +2530,15 @@ Proof.
   apply andb_true_iff in H. destruct H as [_ H]. cbn [combine map fst]. f_equal. apply IH, H.
 Qed.
 
+Lemma ptr_base_struct t fs : underlying t = TStruct fs -> ptr_base t = TStruct fs.
+Proof. induction t; cbn [underlying ptr_base]; try discriminate; try (intros H; exact H). exact IHt. Qed.
+
 Lemma unm_typename_struct pf f o R t fs cur n rest :
   underlying t = TStruct fs ->
   unm pf (S f) o R t cur (T KTypeName (VStr n) :: rest) = unm pf f o R t cur rest.
 Proof.
   intros Hut. rewrite unm_S. generalize (unm pf f o R). intros rec.
-  unfold ustep, conv_tok, ptr_or_dispatch, dispatch. cbn [kind val]. rewrite Hut. reflexivity.
+  unfold ustep, conv_tok. cbn [kind val]. rewrite (ptr_base_struct t fs Hut). reflexivity.
 Qed.
 
 (* item 6.  Reading an object written from struct W into struct Rt (non-strict mode): fields are
@@ -2443,7 +2547,7 @@ Qed.
    Correction w.r.t. the statement asked for (see [by_name_refuted]): the reader's CURRENT content
    of a common field must be that field's zero value, because unmarshalling MERGES into a non-zero
    target (slices are appended to, Nil leaves a non-nil pointer in place, ...).  The round-trip
-   side conditions (simple type, reg_ok, no pointer to nil) are required of the common fields only. *)
+   side conditions (simple type, no pointer to nil) are required of the common fields only. *)
 Theorem by_name_fuel pf o R W Rt wfs rfs wvals rvals ts rest f :
   strict o = false ->
   underlying W = TStruct wfs -> underlying Rt = TStruct rfs ->
@@ -2454,7 +2558,7 @@ Theorem by_name_fuel pf o R W Rt wfs rfs wvals rvals ts rest f :
   (forall wf wv i ft, In (wf, wv) (combine wfs wvals) -> fexported wf = true ->
      find_field (fname wf) rfs 0 = Some (i, ft) ->
      ft = snd wf /\ nth i rvals (zero ft) = zero ft /\
-     simple_ty ft = true /\ reg_ok ft = true /\ no_ptr_to_nil wv = true) ->
+     simple_ty ft = true /\ no_ptr_to_nil wv = true) ->
   (2 * vsize (GStruct wvals) < f)%nat ->
   unm pf f o R Rt (GStruct rvals) (ts ++ rest) = Ok (GStruct (assign_by_name wfs rfs wvals rvals), rest).
 Proof.
@@ -2497,7 +2601,7 @@ Theorem by_name_partial pf o R W Rt wfs rfs wvals rvals ts rest :
   (forall wf wv i ft, In (wf, wv) (combine wfs wvals) -> fexported wf = true ->
      find_field (fname wf) rfs 0 = Some (i, ft) ->
      ft = snd wf /\ nth i rvals (zero ft) = zero ft /\
-     simple_ty ft = true /\ reg_ok ft = true /\ no_ptr_to_nil wv = true) ->
+     simple_ty ft = true /\ no_ptr_to_nil wv = true) ->
   exists f, unm pf f o R Rt (GStruct rvals) (ts ++ rest)
             = Ok (GStruct (assign_by_name wfs rfs wvals rvals), rest).
 Proof.
@@ -2582,18 +2686,18 @@ Definition ex_ts : list token :=
 Theorem by_name_refuted :
   exists pf o R W Rt wfs rfs wvals rvals ts,
     strict o = false /\ underlying W = TStruct wfs /\ underlying Rt = TStruct rfs /\
-    wf_ty W = true /\ wf_ty Rt = true /\ simple_ty Rt = true /\ reg_ok Rt = true /\
+    wf_ty W = true /\ wf_ty Rt = true /\ simple_ty Rt = true /\
     has_type W (GStruct wvals) = true /\ has_type Rt (GStruct rvals) = true /\
     no_ptr_to_nil (GStruct wvals) = true /\ no_ptr_to_nil (GStruct rvals) = true /\
     (forall wf wv i ft, In (wf, wv) (combine wfs wvals) -> fexported wf = true ->
        find_field (fname wf) rfs 0 = Some (i, ft) ->
-       ft = snd wf /\ simple_ty ft = true /\ reg_ok ft = true /\ no_ptr_to_nil wv = true) /\
+       ft = snd wf /\ simple_ty ft = true /\ no_ptr_to_nil wv = true) /\
     marshal default_opts W (GStruct wvals) = Ok ts /\
     forall f, unm pf f o R Rt (GStruct rvals) (ts ++ []) <> Ok (GStruct (assign_by_name wfs rfs wvals rvals), []).
 Proof.
   exists (fun _ _ => None), default_opts, [], ExW, ExR, ExWfs, ExRfs, ex_wvals, ex_rvals_dirty, ex_ts.
   split; [reflexivity|]. split; [reflexivity|]. split; [reflexivity|].
-  do 8 (split; [vm_compute; reflexivity|]).
+  do 7 (split; [vm_compute; reflexivity|]).
   split.
   { intros wf wv i ft Hin Hex Hff. cbn in Hin.
     repeat (destruct Hin as [Hin|Hin]; [injection Hin as <- <-; vm_compute in Hff; try discriminate Hff;
@@ -2615,8 +2719,8 @@ Proof. intros ts H. vm_compute in H. injection H as <-. split; vm_compute; refle
 (* all the main theorems at once (one traversal of the large [unm] term instead of two dozen) *)
 Definition UnmarshalP_main_theorems :=
   (unm_S, unm_fuel_mono, unm_total_bound, unm_total, unm_total_additive_refuted, unm_suffix, unm_consumes,
-   roundtrip_all, roundtrip_simple_fuel, roundtrip_simple_partial, roundtrip_simple_exact,
-   roundtrip_simple_refuted, roundtrip_simple_refuted_time, roundtrip_ex_thm,
+   roundtrip_all, roundtrip_simple_fuel, roundtrip_simple, roundtrip_simple_exact,
+   roundtrip_regptr_nil, roundtrip_regptr_nonnil, roundtrip_regtime, roundtrip_ex_thm,
    marshal_val1, marshal_skip, apply_assign, by_name_fuel, by_name_partial, by_name_refuted, by_name_ex,
    strict_unknown_rejected, strict_unknown_rejected_loop, strict_deprecated_skipped, unknown_field_skipped,
    scalar_by_set_scalar, scalar_mismatch, scalar_match,
